@@ -551,15 +551,19 @@ def correspond(check, name, model_exe, impl_exe, lines, describe=None, bucket=No
     return dis
 
 
-def run_lines_robust(exe, lines, timeout=120, env=None, args=(), per_line_timeout=10):
+def run_lines_robust(exe, lines, timeout=120, env=None, args=(), per_line_timeout=10, max_failures=4):
     """Like run_lines, but a harness that hangs or dies in the middle does not lose the
     other cases: returns a list with one entry per input line; the entry of a line the
-    harness hung on is 'TIMEOUT', of one it died on 'CRASH:<status>'.  (The harness must
-    flush after every line.)"""
+    harness hung on is 'TIMEOUT', of one it died on 'CRASH:<status>'.  After max_failures such
+    lines the remaining ones are not run ('SKIPPED').  (The harness must flush after every line.)"""
     out_all = []
     rest = list(lines)
     first = True
+    failures = 0
     while rest:
+        if failures >= max_failures:
+            out_all += ["SKIPPED"] * len(rest)
+            break
         data = ("\n".join(rest) + "\n").encode()
         t = timeout if first else max(per_line_timeout, timeout // 4)
         try:
@@ -586,6 +590,8 @@ def run_lines_robust(exe, lines, timeout=120, env=None, args=(), per_line_timeou
                 out_all.append("TIMEOUT")
         else:
             out_all.append("CRASH:%s" % status)
+        if out_all[-1] == "TIMEOUT" or out_all[-1].startswith("CRASH"):
+            failures += 1
         rest = rest[len(complete) + 1:]
         first = False
     return out_all
